@@ -7,15 +7,20 @@ NAME=$1; WT=$2; PROP=$3; BUDGET=${4:-40s}
 export GOFLAGS=-mod=mod GOPROXY=off GOSUMDB=off
 DST=/verif/seeded/$NAME
 mkdir -p $DST
-cp $WT/_seeded/patch.diff $DST/ && cp $WT/_seeded/*_test.go $DST/ 2>/dev/null; cp $WT/_seeded/meta.json $DST/agent_meta.json
+if [ -d "$WT/_seeded" ]; then
+  cp $WT/_seeded/patch.diff $DST/ && cp $WT/_seeded/*_test.go $DST/ 2>/dev/null; cp $WT/_seeded/meta.json $DST/agent_meta.json
+else
+  # re-verification of a stored change in a fresh worktree
+  git -C /repo worktree add --detach -f "$WT" HEAD -q || exit 2
+fi
 cd $WT || exit 2
-git stash -q 2>/dev/null; git checkout -q -- . ; git apply $DST/patch.diff || { echo "patch does not apply"; exit 2; }
+git checkout -q -- . ; git apply $DST/patch.diff || { echo "patch does not apply"; exit 2; }
 cp $DST/*_test.go . 2>/dev/null
 go build ./... || { echo "BUILD FAILS with patch"; exit 2; }
-W=$(timeout 300 go test $SEEDED_TEST_FLAGS -vet=off -count=1 -run ZZSeeded . 2>&1 | tail -3 | tr '\n' ' ')
+W=$(timeout 300 go test ${SEEDED_TEST_FLAGS:-} -vet=off -count=1 -run ZZSeeded . 2>&1 | tail -3 | tr '\n' ' ')
 echo "demo WITH patch: $W"
 git apply -R $DST/patch.diff
-WO=$(timeout 300 go test $SEEDED_TEST_FLAGS -vet=off -count=1 -run ZZSeeded . 2>&1 | tail -3 | tr '\n' ' ')
+WO=$(timeout 300 go test ${SEEDED_TEST_FLAGS:-} -vet=off -count=1 -run ZZSeeded . 2>&1 | tail -3 | tr '\n' ' ')
 echo "demo WITHOUT patch: $WO"
 git apply $DST/patch.diff
 rm -f zz_seeded_demo_test.go
